@@ -142,4 +142,6 @@ def run(prog, rep, tier, cfg):
     X.accumulator_integrity('K12', 'running-totals', ['fil_actor_miner', 'fil_actor_power'], 'running totals of amounts')
     X.no_dropped_results('K14', 'results-not-discarded', ['fil_actor_miner', 'fil_actor_power'], 'no Result of a call is discarded')
     X.tolerated_failures('K15', 'tolerated-failures', ['fil_actor_miner', 'fil_actor_power'], 'tolerated failures are the reviewed ones')
+    X.write_sites_preserved('K16', 'updates-present', 'fil_actor_miner', ['State.pre_commit_deposits', 'State.locked_funds', 'State.initial_pledge', 'State.vesting_funds'], 'state updates do not disappear')
+    X.write_sites_preserved('K16', 'updates-present', 'fil_actor_power', ['State.total_pledge_collateral'], 'state updates do not disappear')
 
